@@ -70,6 +70,11 @@ def check(prop, tier, seed):
               "take": rng.choice([-1, -1, 0, 1, 2, 3]), "lend": rng.random() < 0.4}
         if j % 4 == 0:
             sc["fclear"] = rng.choice([1, 1, 2, 3, 9])     # clear() with a panicking destructor (or none: k too large)
+        elif j % 4 == 2:
+            # an ordinary clear(), then the set is refilled (first-add order not ascending) and consumed
+            sc["fclear"] = 1000
+            rids = rng.sample(FAR, rng.randint(2, 6))
+            sc["refill"] = [[rng.choice(rids), 500 + k] for k in range(rng.randint(2, 14))]
         scripts.append(sc)
         tid += 1
     workdir = os.path.join(C.OUT, "work", "%s_%d" % (key, os.getpid()))
